@@ -696,7 +696,7 @@ def _walk_table(ctx, tr, enumv):
     ctx.floor("C17 walk table cases", cases, 14)
 
 
-def column_reader_probe(P, num_values=40):
+def column_reader_probe(P, num_values=40, num_rows=None):
     """Run carquet_reader_get_column abstractly for leaf 1 of a three-leaf schema (see _column_reader_levels).
     Returns (function, returned pointer or value, heap, member offsets of the column reader)."""
     from ..rules import sem
@@ -734,6 +734,9 @@ def column_reader_probe(P, num_values=40):
                        ("num_children", 0), ("has_num_children", 0), ("type_length", 7 if i == 4 else 11), ("has_type_length", 1)):
             if fld in eo:
                 heap0[("els", i * esz + eo[fld])] = v
+    if num_rows is not None and "num_rows" in go:
+        # leaf 1 is a repeated leaf (max repetition level 3): its chunk legitimately holds more entries than the group has rows
+        heap0[("rgs", go["num_rows"])] = num_rows
     k = [0]
 
     def alloc(ev, a, it):
